@@ -9,6 +9,7 @@ import Driver.Cpc
 import Driver.Genesis
 import Driver.BinSearch
 import Driver.Indexer
+import Driver.Staking
 
 def main (args : List String) : IO UInt32 := do
   let stdin ← IO.getStdin
@@ -25,4 +26,5 @@ def main (args : List String) : IO UInt32 := do
   | ["genesis"] => Driver.loop stdin stdout Driver.Genesis.step (); return 0
   | ["binsearch"] => Driver.loop stdin stdout Driver.BinSearch.step (); return 0
   | ["indexer"] => Driver.loop stdin stdout Driver.Indexer.step Evermint.Indexer.Db.empty; return 0
+  | ["staking"] => Driver.loop stdin stdout Driver.Staking.step (); return 0
   | _ => IO.eprintln "usage: driver <engine>"; return 2
